@@ -4,12 +4,12 @@ hands out for them (main, and through Alternative::maybe_new each alternative), 
 Model: Model/GoalCtx.v (read_goal / follow / ctx_total_order / ctx_fitness). Theorems: Properties/C09.v (C09_reader_*, C09_ctx_*).
 Registered by `SUBSTREAMS = ['c09_reader']` in tools/props/c09.py."""
 from coqterm import z, zlist
-from props.floats import of_bits, SIGN
+from props.floats import bits, of_bits, SIGN
 
 ID = 'C09'            # set by the driver to the parent's id
 HARNESS = 'c09_reader'
-COQ_IMPORTS = 'From VRP Require Import Base.Tac Base.TotalCmp Model.CostOrder Model.GoalCtx.'
-MODEL_TARGETS = ['theories/Model/GoalCtx.vo']
+COQ_IMPORTS = 'From VRP Require Import Base.Tac Base.TotalCmp Model.CostOrder Model.InsCost Model.GoalCtx.'
+MODEL_TARGETS = ['theories/Model/InsCost.vo', 'theories/Model/GoalCtx.vo']
 MODEL_NEEDS_IMPL = True      # the state vectors of the solutions (values of the objectives) are what the main context reports
 SHARD = 40
 SIZES = {'quick': 260, 'thorough': 6000, 'search': 3000}
@@ -21,11 +21,17 @@ RULE = ('cases: pragmatic problem documents (1-3 vehicle types with own start lo
         'errors), read by the real reader; 4-6 solutions per document (random assignments of the jobs to the vehicles, the empty '
         'solution, a duplicate) built through the real insertion evaluation; every ordered pair of them is compared under the main '
         'goal context, the context returned by maybe_new without a hit, the built-in alternative and an alternative of the '
-        'alternative. non-trivial = distinct documents with a pair the main goal orders strictly.')
+        'alternative; up to 3 moves per document (an unassigned job into a used or an unused tour, route level and activity level) '
+        'whose InsertionCost estimate under every context is compared with the model applied to the estimates of the single '
+        'objectives (read off the twin document that lists the same objectives as single layers). '
+        'non-trivial = distinct documents with a pair the main goal orders strictly.')
 TRUSTED = ['c09_reader: the values of the objectives of a solution are taken from the fitness vector the MAIN goal context reports '
            '(theorem C09_reader_main_fitness: in the model that vector is the identity on the state vector); the model predicts '
            'from them every order and the vector every other context reports',
-           'c09_reader: the solutions are built by harness/src/bin/c09_reader.rs through eval_job_insertion_in_route + accept_insertion']
+           'c09_reader: the solutions are built by harness/src/bin/c09_reader.rs through eval_job_insertion_in_route + accept_insertion',
+           'c09_reader: the estimate of a single objective for a move is what the twin document (same problem, the objectives of every '
+           'multi-objective listed as single layers) reports in the corresponding component; that the objective of a feature estimates '
+           'the same inside a combined feature is thereby assumed, not checked']
 ASSUMPTIONS = ['c09_reader: documents without optional breaks (the break feature is the only non-objective-section feature that carries '
                'an objective and would be appended to the built-in alternative goal); validation rules E16xx are respected by the generator']
 
@@ -93,7 +99,7 @@ def gen_objectives(rng, with_value, with_order):
             nw = len(inner)
             if rng.chance(1, 25):
                 nw += rng.choice([-1, 1])
-            st = {'name': 'weighted-sum', 'weights': [rng.choice([0.1, 0.3, 0.5, 0.7, 1.0, 1.0, 2.0, 10.0]) for _ in range(nw)]}
+            st = {'name': 'weighted-sum', 'weights': [rng.choice([0.1, 0.3, 0.5, 0.7, 1.0, 1.0, 2.0, 10.0, 0.001, 2.5, 100.0, 0.0]) for _ in range(nw)]}
         if rng.chance(1, 30):
             inner.insert(rng.below(len(inner) + 1),
                          {'type': 'multi-objective', 'strategy': {'name': 'sum'}, 'objectives': [jobj(rest.pop(), rng)]})
@@ -112,9 +118,51 @@ def gen_objectives(rng, with_value, with_order):
     return layers
 
 
+SCI_PATHS = [[], [[0, 1]], [[1, 0]], [[1, 1]], [[1, 1], [1, 0]]]
+
+
+def gen_sci(rng):
+    """a small Solomon / TSPLIB text read by the real vrp-scientific reader (goal context prefer-min-tours / distance-only),
+    solutions as [[job index, vehicle index], ..]; everything fits (wide time windows, large capacity)"""
+    fmt = rng.choice(['solomon', 'tsplib'])
+    nj = rng.range(2, 5)
+    pts = [(rng.range(0, 60), rng.range(0, 60)) for _ in range(nj + 1)]
+    if rng.chance(1, 2):
+        # two far clusters: one long tour against two short ones
+        pts = [(30, 30)] + [((5 if i % 2 else 55) + rng.range(0, 3), (5 if i % 2 else 55) + rng.range(0, 3)) for i in range(nj)]
+    if fmt == 'solomon':
+        nv = rng.range(2, 3)
+        lines = ['C101', '', 'VEHICLE', 'NUMBER     CAPACITY', '  %d   1000' % nv, '', 'CUSTOMER',
+                 'CUST NO.  XCOORD.   YCOORD.    DEMAND   READY TIME  DUE DATE   SERVICE   TIME', '']
+        lines.append('    0  %d  %d  0  0  1000000  0' % pts[0])
+        for i in range(nj):
+            lines.append('    %d  %d  %d  1  0  1000000  %d' % (i + 1, pts[i + 1][0], pts[i + 1][1], rng.choice([0, 10])))
+    else:
+        nv = nj + 1
+        lines = ['NAME : test', 'COMMENT : generated', 'TYPE : CVRP', 'DIMENSION : %d' % (nj + 1), 'EDGE_WEIGHT_TYPE : EUC_2D',
+                 'CAPACITY : 1000', 'NODE_COORD_SECTION']
+        lines += ['%d %d %d' % (i + 1, pts[i][0], pts[i][1]) for i in range(nj + 1)]
+        lines += ['DEMAND_SECTION', '1 0'] + ['%d 1' % (i + 2) for i in range(nj)] + ['DEPOT_SECTION', '1', '-1', 'EOF']
+    sols = []
+    for _ in range(rng.range(2, 4)):
+        sols.append([[i, rng.below(min(nv, 3))] for i in rng.shuffle(range(nj)) if not rng.chance(1, 5)])
+    sols.append([[i, 0] for i in range(nj)])
+    sols.append([[i, i % 2] for i in range(nj)])
+    if rng.chance(1, 3):
+        sols.append([])
+    if rng.chance(1, 3):
+        sols.append(list(sols[0]))
+    sols = sols[:6]
+    return {'sci': {'fmt': fmt, 'text': '\n'.join(lines) + '\n'}, 'solutions': sols, 'paths': SCI_PATHS,
+            'pairs': [[i, j] for i in range(len(sols)) for j in range(i + 1, len(sols))]}
+
+
 def generate(rng, tier, n):
     cases = []
     for _ in range(n):
+        if rng.chance(1, 8):
+            cases.append(gen_sci(rng))
+            continue
         nv, nj = rng.range(1, 3), rng.range(2, 4)
         m = nv + nj
         d, t = matrix(rng, m, nv, rng.chance(1, 2))
@@ -146,8 +194,35 @@ def generate(rng, tier, n):
         sols = sols[:6]
         c['solutions'] = sols
         c['pairs'] = [[i, j] for i in range(len(sols)) for j in range(i + 1, len(sols))]
+        c['twin'] = twin_objectives(c['objectives'])
+        c['moves'] = gen_moves(rng, sols, nj, nv)
         cases.append(c)
     return cases
+
+
+def twin_objectives(objs):
+    """the same objectives, every multi-objective replaced by its (plain) inner objectives as single layers"""
+    if objs is None:
+        return None
+    out = []
+    for o in objs:
+        if o['type'] == 'multi-objective':
+            out += [i for i in o['objectives'] if i['type'] != 'multi-objective']
+        else:
+            out.append(o)
+    return out
+
+
+def gen_moves(rng, sols, nj, nv, n=3):
+    """[solution, job, vehicle]: the job is unassigned in the solution"""
+    cand = []
+    for si, sol in enumerate(sols):
+        used = {j for j, _ in sol}
+        for j in range(nj):
+            if j not in used:
+                for v in range(nv):
+                    cand.append([si, j, v])
+    return rng.shuffle(cand)[:n]
 
 
 def corpus():
@@ -162,12 +237,25 @@ def corpus():
             'solutions': [[[0, 0], [1, 0], [2, 0]], [[0, 0], [1, 0], [2, 1]], [[0, 0]], []],
             'pairs': [[0, 1], [0, 2], [0, 3], [1, 2], [1, 3], [2, 3]]}
     out = []
-    for st in ({'name': 'sum'}, {'name': 'weighted-sum', 'weights': [1.0, 1.0]}, {'name': 'weighted-sum', 'weights': [0.3, 10.0]}):
+    for st in ({'name': 'sum'}, {'name': 'weighted-sum', 'weights': [1.0, 1.0]}, {'name': 'weighted-sum', 'weights': [0.3, 10.0]},
+               {'name': 'weighted-sum', 'weights': [0.1, 0.7]}):
         out.append(dict(base, objectives=[{'type': 'minimize-unassigned'},
                                           {'type': 'multi-objective', 'strategy': st,
                                            'objectives': [{'type': 'minimize-tours'}, {'type': 'minimize-cost'}]}]))
     out.append(dict(base, objectives=None))
     out.append(dict(base, objectives=[{'type': 'minimize-cost'}, {'type': 'minimize-tours'}, {'type': 'minimize-unassigned'}]))
+    for c in out:
+        c['twin'] = twin_objectives(c['objectives'])
+        c['moves'] = [[2, 1, 0], [2, 2, 1], [3, 0, 1]]
+    solomon = ('C101\n\nVEHICLE\nNUMBER     CAPACITY\n  2   1000\n\nCUSTOMER\n'
+               'CUST NO.  XCOORD.   YCOORD.    DEMAND   READY TIME  DUE DATE   SERVICE   TIME\n\n'
+               '    0  30  30  0  0  1000000  0\n    1  5  5  1  0  1000000  0\n    2  55  55  1  0  1000000  0\n    3  6  5  1  0  1000000  0\n')
+    tsplib = ('NAME : test\nCOMMENT : c\nTYPE : CVRP\nDIMENSION : 4\nEDGE_WEIGHT_TYPE : EUC_2D\nCAPACITY : 1000\nNODE_COORD_SECTION\n'
+              '1 30 30\n2 5 5\n3 55 55\n4 6 5\nDEMAND_SECTION\n1 0\n2 1\n3 1\n4 1\nDEPOT_SECTION\n1\n-1\nEOF\n')
+    sols = [[[0, 0], [1, 0], [2, 0]], [[0, 0], [2, 0], [1, 1]], [[0, 0]], []]
+    for fmt, text in (('solomon', solomon), ('tsplib', tsplib)):
+        out.append({'sci': {'fmt': fmt, 'text': text}, 'solutions': sols, 'paths': SCI_PATHS,
+                    'pairs': [[i, j] for i in range(4) for j in range(i + 1, 4)]})
     return out
 
 
@@ -177,15 +265,15 @@ def encode_objectives(objs):
     out = []
     for o in objs:
         if o['type'] != 'multi-objective':
-            out.append((TAG[o['type']], 0, []))
+            out.append((TAG[o['type']], None, []))
         else:
-            st = -1 if o['strategy']['name'] == 'sum' else len(o['strategy']['weights'])
+            st = None if o['strategy']['name'] == 'sum' else [bits(float(w)) for w in o['strategy']['weights']]
             out.append((-1, st, [-1 if i['type'] == 'multi-objective' else TAG[i['type']] for i in o['objectives']]))
     return out
 
 
 def has_value(c):
-    return any(v > 0 for v in c['values'])
+    return any(v > 0 for v in c.get('values', []))
 
 
 def paths_term(paths):
@@ -195,16 +283,54 @@ def paths_term(paths):
 def model_term(c, impl):
     if 'panic' in impl:
         return None
+    if 'sci' in c:
+        return with_solutions(impl, '(run_sci %s %s %s, @nil (list Z))' % (
+            'false' if c['sci']['fmt'] == 'tsplib' else 'true', paths_term(c['paths']), pairs_term(c, impl)))
     if c['objectives'] is None:
         objs = 'None'
     else:
-        objs = '(Some [' + '; '.join('(%s, %s, %s)' % (z(t), z(s), zlist(i)) for t, s, i in encode_objectives(c['objectives'])) + '])'
-    pairs = []
-    if 'fit' in impl:
-        fit = [[int(x) for x in f] for f in impl['fit']]
-        pairs = ['(%s, %s)' % (zlist(fit[i]), zlist(fit[j])) for i, j in c['pairs']]
-    return 'run_reader %s %s %s (%s : list (list Z * list Z))' % (
-        objs, 'true' if has_value(c) else 'false', paths_term(c['paths']), '[' + '; '.join(pairs) + ']')
+        objs = '(Some [' + '; '.join('(%s, %s, %s)' % (z(t), 'None' if s is None else '(Some %s)' % zlist(s), zlist(i))
+                                     for t, s, i in encode_objectives(c['objectives'])) + '])'
+    hv = 'true' if has_value(c) else 'false'
+    body = ('((fun (objs : option (list (Z * option (list Z) * list Z))) (ps : list (list (Z * Z))) => '
+            '(run_reader objs %s ps %s, run_reader_est objs %s ps (%s : list (list Z)))) %s %s)' % (
+                hv, pairs_term(c, impl), hv, '[' + '; '.join(zlist(e) for e in move_vectors(impl)) + ']', objs, paths_term(c['paths'])))
+    return with_solutions(impl, body)
+
+
+def with_solutions(impl, body):
+    """every state vector is written once: (fun s0 s1 .. : list Z => body) [..] [..] (a `let` chain makes Coq's elaboration blow up)"""
+    fit = impl.get('fit', [])
+    if not fit:
+        return body
+    return '((fun %s : list Z => %s) %s)' % (' '.join('s%d' % k for k in range(len(fit))), body,
+                                             ' '.join(zlist([int(x) for x in f]) for f in fit))
+
+
+def pairs_term(c, impl):
+    pairs = ['(s%d, s%d)' % (i, j) for i, j in c['pairs']] if 'fit' in impl else []
+    return '([' + '; '.join(pairs) + '] : list (list Z * list Z))'
+
+
+def move_vectors(impl):
+    """the estimates of the single objectives of every observed move (route level, then activity level when the job fits)"""
+    out = []
+    for m in impl.get('est', []):
+        for lvl in m['single']:
+            if lvl is not None:
+                out.append([int(x) for x in lvl])
+    return out
+
+
+def move_rows(impl):
+    """the estimates of the contexts, in the order of move_vectors x paths: [1, components..]"""
+    out = []
+    for m in impl.get('est', []):
+        for k in (0, 1):
+            if m['single'][k] is not None:
+                for row in m['ctx']:
+                    out.append([1] + [int(x) for x in row[k]])
+    return out
 
 
 def norm(obs):
@@ -214,7 +340,17 @@ def norm(obs):
 def compare(c, impl, model):
     if 'panic' in impl:
         return 'implementation panicked: %s' % impl['panic']
+    model, mest = model
     got = norm(impl['obs'])
+    if 'err' not in impl:
+        gest = move_rows(impl)
+        if gest != mest:
+            if len(gest) != len(mest):
+                return 'estimates: %d rows observed, %d rows in the model' % (len(gest), len(mest))
+            k = next(i for i in range(len(gest)) if gest[i] != mest[i])
+            np_ = len(c['paths'])
+            return 'estimate of move vector %d %s under path %s: impl %s model %s' % (
+                k // np_, move_vectors(impl)[k // np_], c['paths'][k % np_], gest[k], mest[k])
     if got != model:
         if len(got) != len(model):
             return 'reader: impl %s (%s) model %s' % (got[:2], impl.get('err', ''), model[:2])
@@ -226,12 +362,18 @@ def compare(c, impl, model):
 
 # ---------------------------------------------------------------- the property on the implementation's own answers
 def multis(c):
-    return [o for o in (c['objectives'] or []) if o['type'] == 'multi-objective']
+    return [o for o in (c.get('objectives') or []) if o['type'] == 'multi-objective']
 
 
 def ctx_name(c, path):
-    """which goal a path of maybe_new calls ends at: 'main' or 'alternative' (the only alternative is the built-in one)"""
+    """which goal a path of maybe_new calls ends at: 'main' or 'alternative' (a pragmatic context has the built-in alternative only)"""
     return 'alternative' if any(h for h, _ in path) else 'main'
+
+
+def alt_label(c, path):
+    """the alternative a path ends at: index 0 is the built-in heuristic goal, index 1 the goal the scientific readers configure"""
+    last = [d for h, d in path if h][-1]
+    return 'built-in-heuristic-goal' if last == 0 else 'configured-alternative-goal'
 
 
 def single_only(c, path):
@@ -247,6 +389,8 @@ def zk(b):
 
 def strategy_label(c):
     ms = multis(c)
+    if 'sci' in c:
+        return 'scientific-' + c['sci']['fmt']
     if not ms:
         return 'single-layers' if c['objectives'] is not None else 'default-objectives'
     return '+'.join(sorted({'multi-' + m['strategy']['name'] for m in ms}))
@@ -266,7 +410,7 @@ def oracle(c, impl):
         for qi, path in enumerate(c['paths']):
             (ab, ba, aa), fa, fb = obs[3 * (pi * np_ + qi):3 * (pi * np_ + qi) + 3]
             who = ctx_name(c, path)
-            where = '%s/%s' % (who, lab if who == 'main' else 'built-in-heuristic-goal')
+            where = '%s/%s' % (who, lab if who == 'main' else alt_label(c, path))
             if aa != 0:
                 v.append({'class': 'goal-refl/' + where, 'what': 'total_order(a,a) != Equal under the %s goal context' % who})
             if ab != -ba:
@@ -327,7 +471,7 @@ def nontrivial_key(c, impl):
         return None
     np_ = len(c['paths'])
     if any(impl['obs'][3 * pi * np_][0] != 0 for pi in range(len(c['pairs']))):
-        return ('reader', str(c['objectives']), tuple(c['distances']), str(c['solutions']))
+        return ('reader', str(c.get('objectives')), tuple(c.get('distances', [])), str(c.get('sci')), str(c['solutions']))
     return None
 
 
@@ -339,6 +483,10 @@ def classify(c, impl):
         return labs + ['reader-error=%s' % impl['obs'][0][1]]
     if layer_conflict(c, impl):
         labs.append('pair-conflicting-inside-multi-layer')
+    if impl.get('est'):
+        labs.append('estimates:' + ('multi-layer' if multis(c) else 'single-layers'))
+        if any(m['single'][1] is not None for m in impl['est']):
+            labs.append('estimates:activity-level')
     np_ = len(c['paths'])
     orders = {impl['obs'][3 * pi * np_][0] for pi in range(len(c['pairs']))}
     labs += ['main-order=%d' % o for o in sorted(orders)]
